@@ -115,6 +115,45 @@ def normalise(indent: int, width: int, break_i: int) -> str:
     return 'ok'
 
 
+def indent_step(none0: bool, mult: int, best: int, flow: bool, indentless: bool, column: int, whitespace: bool, indention: bool) -> str:
+    """One step of the indentation bookkeeping from an ARBITRARY state (unbounded integers): if the
+    current indent is None or a multiple of the effective indent, it still is after increase_indent();
+    after write_indent() the column equals the indent and what was written is an optional line
+    break followed by spaces only."""
+    out = Sink()
+    try:
+        em = Emitter(out, indent=best)
+    except Exception as e:
+        not_a_finding(e)
+        return fail(P, exc_sig(e))
+    eff = em.best_indent
+    em.indent = None if none0 else mult * eff
+    em.column, em.whitespace, em.indention = column, whitespace, indention
+    old = em.indent
+    try:
+        em.increase_indent(flow=flow, indentless=indentless)
+        new = em.indent
+        em.write_indent()
+    except Exception as e:
+        not_a_finding(e)
+        return fail(P, 'indent ' + exc_sig(e))
+    reach()
+    if em.indents[-1:] != [old]:
+        return 'INDENT the previous indent is not remembered'
+    if new is None or new < 0 or new % eff != 0:
+        return fail(P, 'INDENT after increase_indent() the indent is not a multiple of the effective indent')
+    if old is not None and not (new == old or new == old + eff):
+        return fail(P, 'INDENT step is neither 0 nor the effective indent')
+    if em.column != new:
+        return fail(P, 'INDENT after write_indent() the column is not the indent')
+    text = out.getvalue()
+    rest = text[1:] if text[:1] == '\n' else text
+    for ch in rest:
+        if ch != ' ':
+            return fail(P, 'INDENT write_indent() wrote something else than a break and spaces')
+    return 'ok'
+
+
 NEST = [{'a': {'b': ['c', {'d': 'e'}], 'f': [['g']]}, 'h': [{'i': 'j', 'k': ['l']}]},
         [{'a': 'b'}, ['c', ['d']], {'e': {'f': 'g'}}],
         {'k': 'line one\nline two\n', 's': ['x\ny\n']}]
@@ -272,6 +311,8 @@ def jobs(tier):
                       bounds='strings of len %d over the class alphabet starting with %r, mapping value, 5 styles, allow_unicode both, line_break %s' % (AN, ALPHA[a], 'CR' if q else 'all 4')))
     js.append(Job('normalise', normalise, [lambda indent, width, break_i: 0 <= break_i <= 6], budget=120,
                   bounds='indent and width: ALL integers (unbounded); 7 line_break values'))
+    js.append(Job('indent-step', indent_step, [lambda none0, mult, best, flow, indentless, column, whitespace, indention: 0 <= mult <= 4 and column >= 0 and column <= 12],
+                  budget=200, bounds='one increase_indent + write_indent step from an arbitrary state: requested indent ANY integer, current indent None or a multiple (0..4) of the effective indent, column 0..12'))
     js.append(Job('indentation', indentation, [lambda indent, which, style_i: 0 <= indent <= 11 and 0 <= which <= 2 and 0 <= style_i <= 1], budget=200,
                   bounds='3 nested structures x indent 0..11 x {plain, literal} styles'))
     js.append(Job('markers', markers, [lambda estart, eend, ver, tg, r0, r1, canonical, style_i: 0 <= r0 <= 5 and 0 <= r1 <= 5 and (style_i == 0 if q else 0 <= style_i <= 4)],
